@@ -61,6 +61,14 @@ def phases(quick):
         ("2tags/unicode-ws", 2, [("", "\xa0"), g.CHUNKS_WS, ("", "\n\x0b")],
          g.tags("none") + [("raw", m, "", RAW_BODY_A, "", m) for m in ("", "-")], ("default",), (False,), NL_FORMS),
     ]
+    ph += [
+        # the lex() generator is consumed lazily; after its first token another environment that differs only in
+        # lstrip_blocks fetches its lexer
+        ("1tag/interleaved-lex", 1, [g.CHUNKS_MID, g.CHUNKS_MID], g.tags("outer", (RAW_BODY_A,)), ("default",), (False,),
+         ("\n",), "interleave"),
+        ("2tags/interleaved-lex", 2, [("", " \n "), g.CHUNKS_SMALL, ("", "\n  ")],
+         g.tags("none") + [("raw", m, "", RAW_BODY_A, "", m) for m in ("", "-")], ("default",), (False,), ("\n",), "interleave"),
+    ]
     if not quick:
         ph += [
             ("2tags/full", 2, [full] * 3, g.tags("outer", (RAW_BODY_A,)) + ml_tags("few"),
@@ -133,7 +141,8 @@ def make_env(dname, trim, lstrip, ktn):
 
 def shard(arg) -> core.Part:
     quick, phase_idx, k, n = arg
-    name, ntags, slots, tagset, dnames, ktns, nls = phases(quick)[phase_idx]
+    name, ntags, slots, tagset, dnames, ktns, nls, *rest = phases(quick)[phase_idx]
+    interleave = bool(rest)
     p = core.Part()
     nsk = 0
     for sk in g.skeletons(ntags, tagset=tagset, shard=k, nshards=n, chunk_slots=slots):
@@ -152,7 +161,13 @@ def shard(arg) -> core.Part:
                         p.evals += 1
                         src = src_n if nl == "\n" else src_n.replace("\n", nl)
                         try:
-                            toks = list(make_env(dname, trim, lstrip, ktn).lex(src))
+                            if interleave:
+                                gen = make_env(dname, trim, lstrip, ktn).lex(src)
+                                toks = [t for _, t in zip(range(1), gen)]
+                                make_env(dname, trim, not lstrip, ktn).lexer  # noqa: B018  another environment in between
+                                toks += list(gen)
+                            else:
+                                toks = list(make_env(dname, trim, lstrip, ktn).lex(src))
                             bad = judge(toks, frags)
                         except Exception as e:  # noqa: BLE001
                             toks = None
@@ -191,7 +206,7 @@ def run(ctx: core.Ctx):
     ph = phases(ctx.quick)
     shards = []
     bounds = {}
-    for i, (name, ntags, slots, tagset, dnames, ktns, nls) in enumerate(ph):
+    for i, (name, ntags, slots, tagset, dnames, ktns, nls, *_rest) in enumerate(ph):
         total = len(tagset) ** ntags
         for s in slots:
             total *= len(s)
